@@ -248,8 +248,12 @@ fn run_case_inner(case: &Value, engine: &str, own_hook: bool) -> Value {
         .map(|a| FixedBuf::new(word(&a["base"]), &bytes(&a["bytes"])).unwrap())
         .collect();
 
-    // load (the default verifier runs here)
-    let load = std::panic::catch_unwind(|| Vm::new(kind, Some(prog), fixed));
+    // load (the default verifier runs here).  Cases with a stack-usage calculator alternate between
+    // the two orders the API allows: new(Some(prog)) then set_stack_usage_calculator, and
+    // new(None), set_stack_usage_calculator, then set_program(prog) - the result must be the same.
+    let late_load = case["calc"].as_bool().unwrap_or(false)
+        && arr(&case["id"]).iter().filter_map(|v| v.as_i64()).sum::<i64>() % 2 == 1;
+    let load = std::panic::catch_unwind(|| Vm::new(kind, if late_load { None } else { Some(prog) }, fixed));
     let mut vm = match load {
         Err(e) => return json!({"engine": engine, "k": "panic", "stage": "load", "msg": panic_msg(e)}),
         Ok(Err(msg)) => return json!({"engine": engine, "k": "reject", "msg": msg}),
@@ -281,6 +285,13 @@ fn run_case_inner(case: &Value, engine: &str, own_hook: bool) -> Value {
         };
         if let Err(msg) = vm.set_calc(calculator, Box::new(f)) {
             return json!({"engine": engine, "k": "err", "stage": "set_calc", "msg": msg});
+        }
+    }
+    if late_load {
+        match std::panic::catch_unwind(std::panic::AssertUnwindSafe(|| vm.set_program(prog, fixed))) {
+            Err(e) => return json!({"engine": engine, "k": "panic", "stage": "load", "msg": panic_msg(e)}),
+            Ok(Err(msg)) => return json!({"engine": engine, "k": "reject", "msg": msg}),
+            Ok(Ok(())) => {}
         }
     }
 
